@@ -34,10 +34,17 @@ MC_READS = [("total_params", ""), ("param_range_list_from", "LinearObj"), ("para
             ("curvature_reg_matrix", ""), ("curvature_reg_matrix_reduced", ""), ("reconstruction_reduced", ""), ("reconstruction_dict", ""),
             ("mapped_reconstructed_data_dict", ""), ("mapped_reconstructed_data", ""), ("data_subtracted_dict", ""),
             ("regularization_term", ""), ("regularization_weights_mapper_dict", "")]
-DEFS = ("Sym(cls, reg, p, c) == [cls |-> cls, reg |-> reg, p |-> p, c |-> c]\n"
-        "MCAlphabet == {" + ", ".join(f'Sym("{a}", "{b}", {p}, {c})' for a, b, p, c in ALPHABET) + "}\n"
-        "RQ(q, arg) == [q |-> q, arg |-> arg]\n"
-        "MCReadSet == {" + ", ".join(f'RQ("{q}", "{a}")' for q, a in MC_READS) + "}\n")
+MC_READS_QUICK = [r for r in MC_READS if r not in (("param_range_list_from", "VFuncList"), ("mapper_edge_pixel_list", ""), ("mapping_matrix", ""))]
+
+
+def _defs(reads):
+    return ("Sym(cls, reg, p, c) == [cls |-> cls, reg |-> reg, p |-> p, c |-> c]\n"
+            "MCAlphabet == {" + ", ".join(f'Sym("{a}", "{b}", {p}, {c})' for a, b, p, c in ALPHABET) + "}\n"
+            "RQ(q, arg) == [q |-> q, arg |-> arg]\n"
+            "MCReadSet == {" + ", ".join(f'RQ("{q}", "{a}")' for q, a in reads) + "}\n")
+
+
+DEFS = _defs(MC_READS)
 DEFS_TRACE = "MCAlphabet == {}\nMCReadSet == {}\n"
 
 
@@ -205,7 +212,7 @@ def realise(job):
 # ------------------------------------------------------------------------------------------------------------
 # alpha
 # ------------------------------------------------------------------------------------------------------------
-def ints(x, scale=1.0, exact=True):
+def ints(x, scale=1.0, exact=True, slack=0.0):
     """x * scale as integers; None when off the lattice (exact) / not finite / too large for TLC"""
     try:
         a = np.asarray(x, dtype=float) * scale
@@ -214,7 +221,7 @@ def ints(x, scale=1.0, exact=True):
     if not np.all(np.isfinite(a)):
         return None
     r = np.rint(a)
-    if exact and a.size and np.max(np.abs(a - r)) > 1e-6 * max(1.0, float(np.max(np.abs(a)))):
+    if exact and a.size and np.max(np.abs(a - r)) > 1e-6 * max(1.0, float(np.max(np.abs(a)))) + slack:
         return None
     if a.size and np.max(np.abs(r)) >= 2 ** 30:
         return None
@@ -246,8 +253,10 @@ def payload(job, ds, objs):
         w = lo.regularization.regularization_weights_from(linear_obj=lo) if lo.regularization is not None else np.zeros(int(lo.params))
         o = {"cls": c["cls"], "reg": c["reg"], "p": int(lo.params), "M": ints(M), "B": ints(B, sb), "H": ints(H), "wts": ints(w),
              "edge": [int(x) for x in lo.edge_pixel_list] if isinstance(lo, AbstractMapper) else []}
-        if any(o[k] is None for k in ("M", "B", "H", "wts")) or o["p"] != c["p"]:
-            raise core.MachineryError(f"X11: a linear object of the driver is off the lattice: {c}")
+        n = len(job["part"]["u"])
+        if (any(o[k] is None for k in ("M", "B", "H", "wts")) or o["p"] != c["p"] or np.shape(o["M"]) != (n, o["p"]) or np.shape(o["B"]) != (n, o["p"])
+                or np.shape(o["H"]) != (o["p"], o["p"]) or np.shape(o["wts"]) != (o["p"],)):
+            raise Bad(f"a linear object reports quantities off the lattice or of the wrong shape: {c['cls']} {c['reg']} {c['p']}")
         out.append(o)
     part = job["part"]
     return {"n": len(part["u"]), "objs": out, "w": [int(round(4 * 4.0 ** (-e))) for e in part["sig_e"]],
@@ -372,7 +381,9 @@ def observe(inv, ds, objs, I, sb, job, rq, S2):
             rd["v"] = need(ints(np.array(v.slim if hasattr(v, "slim") else v), sb * S, exact))
         elif q == "regularization_term":
             x = float(inv.regularization_term)
-            rd["v"] = need(ints(x)) if exact else 0
+            # the library's own schemes add a ridge of 1e-8 to the diagonal: s'Hs is then an integer + 1e-8 |s|^2
+            ridge = 1e-8 * sum(c["coeff"] for c in job["contents"] if c["reg"] == "Constant") * float(np.sum(np.square(job["s"]))) * 2
+            rd["v"] = need(ints(x, slack=ridge)) if exact else 0
         elif q in ("reconstruction_noise_map", "reconstruction_noise_map_with_covariance"):
             e = np.asarray(inv.reconstruction_noise_map if q == "reconstruction_noise_map" else np.diagonal(inv.reconstruction_noise_map_with_covariance), dtype=float)
             rd["v"] = need(ints(e, ES, False))
@@ -458,8 +469,17 @@ def well_posed(I):
 def run_job(job):
     """two inversion objects over the same linear objects: a seeded permutation of every request on the first, the reverse order
     on the second, the reads of the two interleaved; a third (cold) inversion gives the solved reconstruction and the noise map"""
-    ds, objs, skw, inst = realise(job)
-    I, sb = payload(job, ds, objs)
+    try:
+        ds, objs, skw, inst = realise(job)
+        I, sb = payload(job, ds, objs)
+    except core.MachineryError:
+        raise
+    except Exception as e:   # the linear objects themselves fail (their own quantities are other checks' subject): a verdict all the same
+        o = {"cls": "VFuncList", "reg": "none", "p": 1, "M": [[0]], "B": [[0]], "H": [[0]], "wts": [0], "edge": []}
+        return [{"family": job["family"], "mode": job["mode"], "exact": True, "S": 1, "S2": 0, "e": [0], "s": [0], "n": 1, "objs": [o], "w": [1], "d": [0],
+                 "g": 1, "eps": 1, "zpix": [0], "cls": "?", "order": "none",
+                 "reads": [{"q": "linear_objects", "arg": "", "filt": "", "raised": not isinstance(e, Bad), "bad": isinstance(e, Bad), "v": 0, "aux": [],
+                            "err": f"{type(e).__name__}: {str(e)[:120]}"}], "_job": job}]
     if job["mode"] == "solved" and not well_posed(I):
         job = dict(job, mode="injected")
     exact = job["mode"] == "injected"
@@ -468,13 +488,14 @@ def run_job(job):
     S2 = tiny_scale(I) if job["tiny"] else 0
     base["S2"] = S2
     recs = []
-    twin_err = None
+    twin_err, twin_q = None, "reconstruction"
     try:
         twin, name = new_inversion(job, ds, objs, skw, injected=False)
         if exact:
             base["s"] = list(job["s"])
         else:
             base["s"] = need(ints(twin.reconstruction, SS, False))
+        twin_q = "reconstruction_noise_map"
         base["e"] = need(ints(twin.reconstruction_noise_map, ES, False))
     except Exception as e:
         twin_err = f"{type(e).__name__}: {str(e)[:100]}"
@@ -486,7 +507,7 @@ def run_job(job):
     if twin_err is not None:
         r = dict(base)
         r.update({"cls": "?", "order": "cold", "s": [0] * sum(o["p"] for o in I["objs"]), "e": [],
-                  "reads": [{"q": "reconstruction", "arg": "", "filt": "", "raised": True, "bad": False, "v": 0, "aux": [], "err": twin_err}]})
+                  "reads": [{"q": twin_q, "arg": "", "filt": "", "raised": True, "bad": False, "v": 0, "aux": [], "err": twin_err}]})
         r["_job"] = job
         return [r]
     invs = [new_inversion(job, ds, objs, skw) for _ in orders]
@@ -512,7 +533,7 @@ def _run_many(jobs):
 # ------------------------------------------------------------------------------------------------------------
 # validation
 # ------------------------------------------------------------------------------------------------------------
-def validate(ctx, recs, tag, chunk=160):
+def validate(ctx, recs, tag, chunk=260):
     import concurrent.futures as cf
 
     jobs = {}
@@ -520,7 +541,7 @@ def validate(ctx, recs, tag, chunk=160):
         r["id"] = k
         jobs[k] = r.pop("_job", None)
     nch = max(1, math.ceil(len(recs) / chunk))
-    nch = nch if nch > 16 else max(1, min(16, math.ceil(len(recs) / 25)))      # at most `chunk` records per JVM, 16 JVMs for small runs
+    nch = nch if nch > 8 else max(1, min(8, math.ceil(len(recs) / 25)))        # at most `chunk` records per JVM, 8 JVMs for small runs
     chunks = [recs[k::nch] for k in range(nch)]
     rejects = []
 
@@ -560,7 +581,14 @@ def jobs_of_list(rng, items, family, codes=None, small=False, k=0):
     return out
 
 
-def random_list(rng, max_len):
+def random_list(rng, max_len, max_total=30):
+    while True:
+        items, codes = _random_list(rng, max_len)
+        if sum(it["p"] for it in items) <= max_total:
+            return items, codes
+
+
+def _random_list(rng, max_len):
     n = int(rng.integers(1, max_len + 1))
     items, codes = [], []
     for k in range(n):
@@ -602,7 +630,7 @@ def run(ctx):
     rng = np.random.default_rng(ctx.seed)
     max_len = 3 if quick else 4
     # 1. TLC: the lists (Init states of the machine, dumped), the design theorems per list
-    res = ctx.tlc("InvBook", _cfg(max_len, 0, dump=True), defs=DEFS, tag="MC_lists", workers=1, timeout=1200, env={"_JAVA_OPTIONS": "-Xmx4g"})
+    res = ctx.tlc("InvBook", _cfg(max_len, 0, dump=True), defs=DEFS, tag="MC_lists", workers=1, timeout=1200, env={"_JAVA_OPTIONS": "-Xmx2g"})
     lists = [r["objs"] for r in res.by_kind("inst")]
     if len(lists) != sum(len(ALPHABET) ** k for k in range(1, max_len + 1)):
         raise core.MachineryError(f"X11: TLC dumped {len(lists)} lists")
@@ -611,11 +639,11 @@ def run(ctx):
     # 2. in the background: every list x every read order of length 2 (cache discipline), rebuilds, and the design switches
     def mc(kind):
         if kind == "orders":
-            return kind, ctx.tlc("InvBook", _cfg(max_len, 2), defs=DEFS, tag="MC_orders", workers=8 if quick else 16, timeout=3000,
-                                 env={"_JAVA_OPTIONS": "-Xmx6g"})
+            return kind, ctx.tlc("InvBook", _cfg(max_len, 2), defs=_defs(MC_READS_QUICK) if quick else DEFS, tag="MC_orders", workers=8 if quick else 16, timeout=3000,
+                                 env={"_JAVA_OPTIONS": "-Xmx3g" if quick else "-Xmx6g"})
         if kind == "rebuilds":
             return kind, ctx.tlc("InvBook", _cfg(2, 2, rebuilds=True), defs=DEFS, tag="MC_rebuilds", workers=2, timeout=1200, coverage=True,
-                                 env={"_JAVA_OPTIONS": "-Xmx4g"})
+                                 env={"_JAVA_OPTIONS": "-Xmx2g"})
         key, cpo = kind
         return kind, core.run_tlc("InvBook", _cfg(2, 1, key_mode=key, cache_per_object=cpo, rebuilds=not cpo), ctx.work, defs=DEFS,
                                   tag=f"MC_switch_{key}_{cpo}", timeout=600, allow_errors=True, workers=1)
@@ -632,7 +660,7 @@ def run(ctx):
     # 4. C->S: seeded random longer lists (sizes 3..12 / 1..3, Constant schemes, equal objects) and the tiny systems
     n_rand = 160 if quick else 2000
     for k in range(n_rand):
-        items, codes = random_list(rng, 4 if quick else 6)
+        items, codes = random_list(rng, 5 if quick else 6, 30 if quick else 40)
         jobs += jobs_of_list(rng, items, "random-list", codes=codes, k=k)
     tl = tiny_lists()
     if quick:
@@ -640,7 +668,7 @@ def run(ctx):
     for k, items in enumerate(tl):
         jobs += jobs_of_list(rng, items, "tiny-system", small=True, k=k)
     ctx.bounds = {"alphabet": [list(a) for a in ALPHABET], "tlc_lists": len(lists), "max_list_length_tlc": max_len, "read_orders_tlc": "all of length 2 over "
-                  f"{len(MC_READS)} requests", "real_inversions_of_tlc_lists": n_tlc, "random_lists": n_rand, "random_list_length": "1..4" if quick else "1..6",
+                  f"{len(MC_READS_QUICK) if quick else len(MC_READS)} requests (rebuild machine: {len(MC_READS)})", "real_inversions_of_tlc_lists": n_tlc, "random_lists": n_rand, "random_list_length": "1..5 (at most 30 parameters)" if quick else "1..6 (at most 40 parameters)",
                   "random_sizes": "mappers 3,4,5,6,9,12 pixels; function lists 1..3 columns; schemes none/VReg/VRegSub/Constant; equal objects with p=0.25",
                   "tiny_systems": len(tl), "requests_per_history": len(requests(False)) + 6, "histories_per_inversion": "permutation + reverse, interleaved"}
     groups = [jobs[k::64] for k in range(64)]
